@@ -77,10 +77,14 @@ WellFormed(pkg, dir, c) ==
          /\ v.McGroupID <= 3
          /\ IF HasErr(v) THEN v.TimeToStart = <<>> ELSE Len(v.TimeToStart) = 1 /\ v.TimeToStart[1][4] = 0
     [] pkg = "fragmentation" /\ dir = "down" /\ c.cid = 8 -> v.FragIndex <= 3 /\ v.N < 16384
-    [] pkg = "firmwaremanagement" /\ dir = "up" /\ c.cid = 4 -> v.UpImageStatus \in 0..2 /\ v.nextFirmwareVersion = <<>>
+    [] pkg = "firmwaremanagement" /\ dir = "up" /\ c.cid = 4 ->
+         IF v.UpImageStatus = 3 THEN Len(v.nextFirmwareVersion) = 1 /\ Len(v.nextFirmwareVersion[1]) = 4
+         ELSE v.UpImageStatus \in 0..2 /\ v.nextFirmwareVersion = <<>>
     [] OTHER -> MustAccept(ALayout(pkg, dir, c.cid), v)
 
 PopCountBits(bits) == FoldLeft(LAMBDA a, i : a + bits[i] * Pow2(i - 1), 0, [i \in 1..Len(bits) |-> i])
+\* values the library's exported API can build (DevUpgradeImageAns.nextFirmwareVersion is unexported)
+Constructible(pkg, dir, c) == ~(pkg = "firmwaremanagement" /\ dir = "up" /\ c.haspl /\ c.cid = 4 /\ c.val.UpImageStatus = 3)
 \* ---- encoding ----------------------------------------------------------------------------------------------
 APayloadBytes(pkg, dir, c) ==
   IF ~c.haspl THEN <<>> ELSE
